@@ -114,14 +114,18 @@ func (e *csvEncoder) Encode(writer io.Writer, node *CandidateNode) error {
 	} else if len(node.Content) == 0 {
 		return nil
 	}
+	var err error
 	if node.Content[0].Kind == ScalarNode {
-		return e.encodeRow(csvWriter, node.Content)
+		err = e.encodeRow(csvWriter, node.Content)
+	} else if node.Content[0].Kind == MappingNode {
+		err = e.encodeObjects(csvWriter, node.Content)
+	} else {
+		err = e.encodeArrays(csvWriter, node.Content)
 	}
-
-	if node.Content[0].Kind == MappingNode {
-		return e.encodeObjects(csvWriter, node.Content)
+	if err != nil {
+		return err
 	}
-
-	return e.encodeArrays(csvWriter, node.Content)
-
+	// the csv writer buffers on its own unless the destination already is a bufio.Writer
+	csvWriter.Flush()
+	return csvWriter.Error()
 }
